@@ -207,6 +207,7 @@ var edgeCorpus = []string{
 	`(cond (begin) 1 2)`, `(+ 5 (cond (begin) 1 2))`, `(defn gg [] (let [a 1] (begin))) (+ 5 (gg))`,
 	`(for [(def i 0) (< i 1) (set i (+ i 1))] (or (let [v 1] (continue)) 2))`, `(for [(def i 0) (< i 2) (set i (+ i 1))] (cond (newScope (break)) 1 2))`,
 	`(for [(def i 0) (< i 2) (set i (+ i 1))] (and (letseq [w 1] (cond (== i 0) (continue) w)) 3))`,
+	`(defn r0 [] (return)) (+ 5 (r0))`, `(defn sq0 [] (set %y 10)) (+ 1 (sq0))`, `(def ar0 [4 5 6]) (defn ai0 [] (set (arrayidx ar0 [1]) 99)) (+ 1 (ai0))`,
 	`(hash a:(begin) b:2)`, `[1 (begin) 2]`, `[(newScope)]`, `(len [(begin)])`,
 }
 
